@@ -527,9 +527,20 @@ def variant_args(name, comps):
     return args
 
 
+# clones that fail AFTER the output has been opened: the promise "nothing is removed or renamed, no
+# other file is written" holds for them as well
+FAIL_MODES = ["fail-missing-seed", "fail-corrupt-chunk", "fail-corrupt-chunk-in-place"]
+
+
 def clone_cases(tier):
     variants = ["fixed"] if tier == "quick" else ["fixed", "rollsum", "buzhash"]
     cases = []
+    for variant in variants:
+        for mode in FAIL_MODES:
+            for loc in LOCS:
+                for style in STYLES:
+                    cases.append({"kind": "clone", "mode": mode, "loc": loc, "verify": VERIFY[0],
+                                  "style": style, "variant": variant})
     for variant in variants:
         for mode in CLONE_MODES:
             for loc in LOCS:
@@ -549,13 +560,17 @@ def compress_cases(tier, available=("none", "brotli", "zstd", "lzma")):
                 for style in STYLES:
                     cases.append({"kind": "compress", "input": inp, "chunker": chunker, "compression": comp,
                                   "style": style})
+        # the empty source: zero chunks, the temp file is created all the same
+        for chunker in ("fixed", "rollsum"):
+            cases.append({"kind": "compress", "input": inp, "chunker": chunker, "compression": comps[-1],
+                          "style": STYLES[0], "empty": True})
     return cases
 
 
 def mode_key(case):
     if case["kind"] == "clone":
         return ("clone", case["variant"], case["mode"], case["loc"], case["verify"])
-    return ("compress", case["input"], case["chunker"], case["compression"])
+    return ("compress", case["input"], case["chunker"], case["compression"], bool(case.get("empty")))
 
 
 # ------------------------------------------------------------------------------------------------
@@ -596,10 +611,20 @@ def run_clone_case(env_, case, case_dir, log_path):
     readonly = []          # absolute paths of seeds + archive
     stdin_data = None
     mode = case["mode"]
-    if mode in ("force",):
+    failing = mode.startswith("fail-")
+    if mode in ("force", "fail-missing-seed", "fail-corrupt-chunk"):
         argv.append("-f")
         with open(out_abs, "wb") as f:
             f.write(mat["junk"])
+    if mode == "fail-missing-seed":
+        argv += ["--seed", P(os.path.join("seeds", "no-such-seed.bin"))]
+    if mode == "fail-corrupt-chunk-in-place":
+        argv.append("--seed-output")
+        with open(out_abs, "wb") as f:
+            f.write(mat["junk"])
+    archive_bytes = var["archive"]
+    if mode.startswith("fail-corrupt-chunk"):
+        archive_bytes = archive_bytes[:-1] + bytes([archive_bytes[-1] ^ 0x40])      # last payload byte
     if mode in ("seed1", "seed2", "seed+in-place"):
         with open(os.path.join(case_dir, "seeds", "s1.bin"), "wb") as f:
             f.write(mat["s1"])
@@ -623,11 +648,15 @@ def run_clone_case(env_, case, case_dir, log_path):
         argv += ["--verify-header", var["checksum"]]
     if case["loc"] == "local":
         with open(os.path.join(case_dir, "arch", "a.cba"), "wb") as f:
-            f.write(var["archive"])
+            f.write(archive_bytes)
         argv.append(P(os.path.join("arch", "a.cba")))
         readonly.append(os.path.join(case_dir, "arch", "a.cba"))
     else:
-        argv.append(srv.url(var["name"], "c16=" + os.path.basename(case_dir)))
+        name = var["name"]
+        if archive_bytes is not var["archive"]:
+            name = "corrupt-" + var["name"]
+            srv.files[name] = archive_bytes
+        argv.append(srv.url(name, "c16=" + os.path.basename(case_dir)))
     argv.append(P(out_rel))
 
     before = snapshot(case_dir)
@@ -682,7 +711,11 @@ def run_clone_case(env_, case, case_dir, log_path):
             ok_out = f.read() == source
     except OSError:
         pass
-    if not r["timed_out"] and (r["rc"] != 0 or not ok_out):
+    if failing:
+        facts["failing_mode_rc"] = r["rc"]
+        if not r["timed_out"] and r["rc"] == 0 and not ok_out:
+            v.append(("failing-clone-reported-success", {"rc": r["rc"], "mode": mode}))
+    elif not r["timed_out"] and (r["rc"] != 0 or not ok_out):
         v.append(("valid-operation-failed", {"rc": r["rc"], "output_equals_source": ok_out,
                                              "stderr": r["stderr"].decode("utf-8", "replace")[:300]}))
     if case["loc"] == "http":
@@ -692,7 +725,7 @@ def run_clone_case(env_, case, case_dir, log_path):
 
 def run_compress_case(env_, case, case_dir, log_path):
     bita = env_["bita"]
-    source = env_["compress_source"]
+    source = b"" if case.get("empty") else env_["compress_source"]
     for sub in ("in", "out"):
         os.makedirs(os.path.join(case_dir, sub))
     rel = case["style"] == "rel"
